@@ -13,7 +13,7 @@ pub const DEF: PropDef = PropDef {
     id: "C03",
     jobs,
     required,
-    rule: "one case = one history of copy (any form) / extend / from_iter / clear / clone / clone_from / reserve / reserve_items on FlatStack<R, S> for one catalogue entry R and one admissible index container S (Vec, IndexOptimized, IndexList). After every operation the stack is compared with a Vec of owned values: len, is_empty, get(i) for all i, iter() and into_iter() element-wise with size hints bracketing the true remainder, a cloned iterator advanced independently, Debug equal to the model's, and get(len), get(len+1), get(len+7), get(usize::MAX) must each panic. extend / from_iter are compared with repeated copy on a twin. Non-trivial = at least 2 elements held at some point; distinct = distinct hash of (entry, container, operation list).",
+    rule: "one case = one history of copy (any form) / extend / from_iter / clear / clone / clone_from / reserve / reserve_items on FlatStack<R, S> for one catalogue entry R and one admissible index container S (Vec, IndexOptimized, IndexList). After every operation the stack is compared with a Vec of owned values: len, is_empty, get(i) for all i, iter() and into_iter() element-wise with size hints bracketing the true remainder, a cloned iterator advanced independently, and get(len), get(len+1), get(len+7), get(usize::MAX) must each panic. extend / from_iter are compared with repeated copy on a twin. Non-trivial = at least 2 elements held at some point; distinct = distinct hash of (entry, container, operation list).",
     assumptions: &[
         "mirror<usize> / vec regions make arbitrary usize values flow through the index containers; other entries produce their natural index sequences",
     ],
@@ -299,9 +299,6 @@ pub fn run<E: Entry, S: IdxC<Idx<E>>>(ctx: &mut Ctx) {
             if !oob(ctx, &st) {
                 break;
             }
-        }
-        if !long && op % 4 == 0 && !debug_matches(ctx, &st) {
-            break;
         }
         if st.model.len() >= 100 {
             ctx.cover(&format!("big:{}", S::KIND));
